@@ -55,6 +55,28 @@ def scratch(prefix='kv'):
     return tempfile.mkdtemp(prefix=prefix + '-', dir=_scratch_root)
 
 
+_other_tmp = [None]
+
+
+def other_fs_tmp():
+    """a scratch directory on a file system OTHER than the one the scratch directories live on (removed at exit), or None:
+    worker processes get it as TMPDIR, so that anything the library stages in the system's temporary directory has to be
+    moved across file systems (os.rename fails with EXDEV there; a copy is not atomic)"""
+    if _other_tmp[0] is None:
+        _other_tmp[0] = ''
+        base = os.environ.get('VERIF_SCRATCH', tempfile.gettempdir())
+        for cand in ('/dev/shm', '/run/shm', '/var/tmp'):
+            try:
+                if os.path.isdir(cand) and os.access(cand, os.W_OK) and os.stat(cand).st_dev != os.stat(base).st_dev:
+                    d = tempfile.mkdtemp(prefix='klepto-verif-tmp-', dir=cand)
+                    atexit.register(shutil.rmtree, d, True)
+                    _other_tmp[0] = d
+                    break
+            except OSError:
+                continue
+    return _other_tmp[0] or None
+
+
 def repo_identity():
     def git(*a):
         try:
